@@ -48,6 +48,8 @@ import LexVerif.Proof.WriteRadixError
 import LexVerif.Proof.WriteRadixMid
 import LexVerif.Proof.WriteRadixBig
 import LexVerif.Proof.WriteRadixSmall
+import LexVerif.Proof.WriteRadixFix
+import LexVerif.Props.C14Radix
 -- API-level pipeline model (fast path → moderate path → slow path) and its op handler `apf`
 import LexVerif.Model.Ops.ParseFloatAlgo
 -- big-integer slow path (slow.rs / bigint.rs): models, op handler, theorems
